@@ -8,7 +8,7 @@ EndRecord == [tid |-> P.tid, ci |-> ci, fi |-> fi, events |-> evlog, verdict |->
               status |-> [el \in 1..N |-> StatusOf(el)], hook_failed |-> hookFailed,
               step_status |-> stepst, errmarks |-> cap.errmarks, nhooks |-> rt.hookN]
 \* the finished behaviour in the row format of the property layer
-SpecRow == [prog |-> prog, cfg |-> cfg, skips |-> P.skips, events |-> evlog, base |-> [ran |-> FALSE],
+SpecRow == [prog |-> prog, cfg |-> cfg, skips |-> P.skips, hookcl |-> P.hookcl, events |-> evlog, base |-> [ran |-> FALSE],
             end |-> [verdict |-> Verdict, ran |-> TRUE, status |-> [el \in 1..N |-> StatusOf(el)], hook_failed |-> hookFailed,
                      step_status |-> stepst, eff |-> [el \in 1..N |-> <<>>], errmarks |-> cap.errmarks,
                      real_out |-> cap.rout, real_err |-> cap.rerr, user_log |-> cap.ulog]]
